@@ -132,9 +132,9 @@ theorem streamInv_run (s : S) (evs : List Ev) (h : StreamInv s) : StreamInv (run
     | act a => exact streamInv_step s a h
     | env e => exact streamInv_env s e h
 
-theorem streamInv_init (hi ht w p e : Bool) (o er : List Chunk) (ins : List InItem) (ho sf : Bool) (n : Nat) :
-    StreamInv (S.init hi ht w p e o er ins ho sf n) := by
-  cases sf <;> simp [StreamInv, PipeInv, S.init]
+theorem streamInv_init (hi ht w p e : Bool) (o er : List Chunk) (ins : List InItem) (ho sf : Bool) (n : Nat) (asy : Bool) :
+    StreamInv (S.init hi ht w p e o er ins ho sf n asy) := by
+  cases sf <;> cases asy <;> simp [StreamInv, PipeInv, S.init]
 
 end Inv
 
